@@ -117,12 +117,26 @@ func totalityPhase(run *evid.Run, thorough bool, sub map[*codec][]string) *totSt
 		s string
 	}
 	var hits []hit
-	note := func(c *codec, s string) {
+	seenHit := map[string]bool{}
+	eeCount := map[*codec]int{}
+	// note keeps a finding for confirmation. Differences between two error texts (the very common "two invalid values"
+	// shape) are kept up to 300 per header, everything else (panic, a value involved) up to 20000 in total.
+	note := func(c *codec, s string, bothErrors bool) {
 		mu.Lock()
-		if len(hits) < 20000 {
-			hits = append(hits, hit{c, s})
+		defer mu.Unlock()
+		if seenHit[c.name+"\x00"+s] {
+			return
 		}
-		mu.Unlock()
+		if bothErrors {
+			if eeCount[c] >= 300 {
+				return
+			}
+			eeCount[c]++
+		} else if len(hits) >= 20000 {
+			return
+		}
+		seenHit[c.name+"\x00"+s] = true
+		hits = append(hits, hit{c, s})
 	}
 
 	for _, sc := range srcs {
@@ -132,6 +146,7 @@ func totalityPhase(run *evid.Run, thorough bool, sub map[*codec][]string) *totSt
 		}
 		n := mutantCount(len(sc.s), len(menu), depth)
 		res := make([]uint64, n)
+		isErr := make([]bool, n)
 		const chunk = 4096
 		nch := (n + chunk - 1) / chunk
 		rounds := []int{0, roundReverse}
@@ -158,12 +173,13 @@ func totalityPhase(run *evid.Run, thorough bool, sub map[*codec][]string) *totSt
 					g.Touch()
 					_, o, pan := safeParse(sc.c, s)
 					if pan != "" {
-						note(sc.c, s)
+						note(sc.c, s, false)
 						continue
 					}
 					h := evid.Hash(o)
 					if ri == 0 {
 						res[i] = h
+						isErr[i] = o[0] == 'E'
 						if o[0] == 'V' {
 							acc.Add(1)
 						} else {
@@ -175,7 +191,7 @@ func totalityPhase(run *evid.Run, thorough bool, sub map[*codec][]string) *totSt
 						run.OutcomeHash(evid.Hash(sc.c.name+"\x00") ^ h)
 					} else if res[i] != h {
 						diff.Add(1)
-						note(sc.c, s)
+						note(sc.c, s, isErr[i] && o[0] == 'E')
 					}
 				}
 				if ri == 0 {
@@ -195,7 +211,7 @@ func totalityPhase(run *evid.Run, thorough bool, sub map[*codec][]string) *totSt
 			_, o, pan := safeParse(cKeyMgmt, kmSrcs[i])
 			st.parses.Add(1)
 			if pan != "" {
-				note(cKeyMgmt, kmSrcs[i])
+				note(cKeyMgmt, kmSrcs[i], false)
 				return
 			}
 			h := evid.Hash(o)
@@ -210,7 +226,7 @@ func totalityPhase(run *evid.Run, thorough bool, sub map[*codec][]string) *totSt
 				run.OutcomeHash(evid.Hash("keymgmt\x00") ^ h)
 			} else if kmRes[i] != h {
 				diff.Add(1)
-				note(cKeyMgmt, kmSrcs[i])
+				note(cKeyMgmt, kmSrcs[i], false)
 			}
 		})
 		if ri == 0 {
